@@ -149,6 +149,12 @@ def gen_asm_arm(ch):
                              f"{ch.pick(ARM_REGS, 'reg3')}")
             else:
                 lines.append(f"  dd {ch.draw(1 << 30, 'word')}")
+    if ch.chance(1, 3, "asmerror"):
+        # a source with an error (diagnosed, no object): an *earlier failed*
+        # compilation is history too
+        lines.insert(2 + ch.draw(max(1, len(lines) - 2), "errpos"),
+                     "  " + ch.pick(["bogus r1", "mov r77, 1", "ldr r0, ="],
+                                    "errline"))
     return "\n".join(lines) + "\n"
 
 
